@@ -1,6 +1,7 @@
 package main
 
 import (
+	"runtime"
 	"bytes"
 	"context"
 	"fmt"
@@ -101,7 +102,30 @@ func (vc *VC) smtGround(o *Obligation) string {
 
 var solverSlots = make(chan struct{}, 16)
 
+// loadFactor stretches the wall-clock solver budgets when the machine is oversubscribed (other checks
+// running beside this one): a query that needs 2 s of CPU must not turn into "unknown" because it only got
+// a quarter of a core. 1 on an idle machine, at most 6.
+func loadFactor() int {
+	data, err := os.ReadFile("/proc/loadavg")
+	if err != nil {
+		return 1
+	}
+	var l1 float64
+	if _, err := fmt.Sscanf(string(data), "%f", &l1); err != nil {
+		return 1
+	}
+	f := int(l1/float64(runtime.NumCPU()) + 0.5)
+	if f < 1 {
+		f = 1
+	}
+	if f > 6 {
+		f = 6
+	}
+	return f
+}
+
 func runSolver(ctx context.Context, sc solverCfg, file string, timeoutS int) (string, string, float64) {
+	timeoutS *= loadFactor()
 	select {
 	case solverSlots <- struct{}{}:
 	case <-ctx.Done():
